@@ -29,18 +29,38 @@ NONE_STR = "```(None)```"
 # ------------------------------------------------------------------------------------------------------------------
 # types
 # ------------------------------------------------------------------------------------------------------------------
-def gen_member(r):
-    if r.random() < 0.7:
-        return r.choice(MEMBERS)
-    n = r.randint(1, 9)
-    return "".join(r.choice(string.ascii_letters + string.digits + "_") for _ in range(n))
+META = ".^$*+?{}[]\\|()"  # characters with a special meaning in a Python regular expression
+PLAIN_PUNCT = " -,:;!\"#%&/<=>@`~"  # printable, stand for themselves in a regular expression, fine inside '…'
+WIDE_MEMBERS = ["pre-release", "stable", "long term", "a.b", "c+d", "v1.2", "x (beta)", "C++", "a-b", "two words", " lead", "trail ",
+                "a,b", "50%", "#1", "e-mail", "key=value", "x]", "q{", "}r", "a*", "*b", "a?", "b$", "^c", "a{2}", "a(b", "a)", "a[b",
+                "[x]", "Optional[x", "~/data", "<none>", "a&b", "semi;colon", "what?!", "tab-less", "", "."]
 
 
-def gen_typ(r, max_members=5):
+def gen_member(r, wide=True):
+    """A Literal member.  wide: arbitrary short printable ASCII (legal inside a Python string literal); a few contain the
+    characters the domain excludes (`|` the pattern separator; `'` and `\\`, which the parser does not re-escape)."""
+    k = r.random()
+    if not wide or k < 0.45:
+        if r.random() < 0.7:
+            return r.choice(MEMBERS)
+        return "".join(r.choice(string.ascii_letters + string.digits + "_") for _ in range(r.randint(1, 9)))
+    if k < 0.62:
+        return r.choice(WIDE_MEMBERS)
+    n = r.randint(1, 8)
+    if k < 0.85:  # no metacharacter
+        return "".join(r.choice(string.ascii_letters + string.digits + "_" + PLAIN_PUNCT) for _ in range(n))
+    if k < 0.95:  # printable ASCII without | ' \\
+        return "".join(r.choice([c for c in PRINTABLE if c not in "|'\\"]) for _ in range(n))
+    if k < 0.975:
+        return "".join(r.choice(string.ascii_lowercase + "|") for _ in range(n)) + r.choice(["|x", "", "|"])
+    return "".join(r.choice(string.ascii_lowercase + "'\\\"") for _ in range(n)) + r.choice(["'", "\\", "'s"])
+
+
+def gen_typ(r, max_members=5, wide=True):
     opt = r.random() < 0.4
     if r.random() < 0.3:
         n = r.randint(1, max(2, max_members))  # one-member Literals included (subscript is the member itself, not a Tuple)
-        ms = [gen_member(r) for _ in range(n)]
+        ms = [gen_member(r, wide) for _ in range(n)]
         if r.random() < 0.85:  # mostly distinct members; duplicates are legal Python
             ms = list(OrderedDict.fromkeys(ms))
         return {"opt": opt, "lit": ms}
@@ -49,12 +69,35 @@ def gen_typ(r, max_members=5):
 
 def render_core(t) -> str:
     if "lit" in t:
-        return "Literal[%s]" % ", ".join("'%s'" % m for m in t["lit"])
+        return "Literal[%s]" % ", ".join(repr(m) for m in t["lit"])  # Python's own quoting ('…' unless the member has a ')
     return t["base"]
 
 
 def render_typ(t) -> str:
     return "Optional[%s]" % render_core(t) if t["opt"] else render_core(t)
+
+
+def has_meta(ms) -> bool:
+    return any(c in META for m in ms for c in m)
+
+
+def lit_region(t) -> str:
+    """Where a Literal parameter type lies with respect to the round-trip domain (lean: Typ.ok)."""
+    ms = t["lit"]
+    if any("|" in m for m in ms):
+        return "member-with-bar"
+    if any("'" in m or "\\" in m for m in ms):
+        return "member-with-quote-or-backslash"
+    if ms == [""]:
+        return "only-empty-member"
+    if "Optional[" in "Literal[%s]" % ", ".join("'%s'" % m for m in sorted(ms)):
+        return "member-containing-Optional["
+    return "domain"
+
+
+def S_in_domain(S) -> bool:
+    """Python mirror of the Lean `IR.ok` as far as Literal members go (the generators keep everything else inside)."""
+    return all(lit_region(p["typ"]) == "domain" for _, p in S["params"] if "lit" in p["typ"])
 
 
 # ------------------------------------------------------------------------------------------------------------------
@@ -181,7 +224,7 @@ def gen_S(r, nparams=None, p_default=0.5, p_none=0.5, with_return=None, max_para
     ret = None
     if (r.random() < 0.5) if with_return is None else with_return:
         while True:
-            t = gen_typ(r, max_members=3)
+            t = gen_typ(r, max_members=3, wide=False)  # the return type travels through the docstring: word members
             if len(":rtype: ```%s```" % render_typ(t)) <= 100:
                 break
         ret = {"typ": t, "doc": gen_ret_doc(r)}
